@@ -163,6 +163,13 @@ TIES = {
   }},
 }
 
+# further ties, one file each: tools/tie_edits_d/<tie>.py defines TIES_EXTRA = {<tie>: {...}} with the helpers above in scope
+import glob as _glob
+for _f in sorted(_glob.glob(os.path.join(HERE, 'tools', 'tie_edits_d', '*.py'))):
+    _ns = dict(ed=ed, seeded=seeded, both=both)
+    exec(compile(open(_f, encoding='utf-8').read(), _f, 'exec'), _ns)
+    TIES.update(_ns.get('TIES_EXTRA', {}))
+
 def run(tie, name, check=None):
     T = TIES[tie]
     scratch = tempfile.mkdtemp(prefix='tie-scratch.')
